@@ -179,3 +179,82 @@ class CubeGetSed(Contract):
             P, RP = c.A(ap), c.A(rap)
             out['apertures'] = [compare('==', RP.n, P.n), c.forall(P.n, lambda i: RP[i] == P[i], 'ap')]
         return out
+
+
+@contract
+class TableToHdu(Contract):
+    name = 'sedfitter.sed.helpers.table_to_hdu'
+    trusted = 'assumed (astropy Table -> BinTableHDU): the HDU holds the table\'s columns with their units'
+
+    def result(self, c, a):
+        from sedvc.extmodels import _new_hdu
+        return _new_hdu(c.st, a.table)
+
+
+@contract
+class CubeWrite(Contract):
+    """SEDCube.write(filename): the file gets, under the documented extension names, the validity flags, the
+    distance in cm, the model names, the wavelengths and the frequencies derived from them, the apertures (if
+    any), the values and (if any) the uncertainties with their units -- element for element, in the cube's own
+    order (no re-ordering on write); the cube is not modified."""
+    name = CUBE + 'BaseCube.write'
+    properties = ('C12',)
+    variants = ('unc/ap', 'nounc/noap')
+    modifies = ()
+
+    def setup(self, c, variant):
+        unc, ap = variant.split('/')
+        return dict(self=make_cube(c, unc == 'unc', ap == 'ap'), filename='flux.fits', overwrite=False, meta=c.dict({}))
+
+    def requires(self, c, a):
+        wav = c.A(c.attr(a.self, '_wav'))
+        return {'positive': c.forall(wav.n, lambda k: wav[k] > 0, 'wav>0')}
+
+    def ensures(self, c, a, result, old):
+        from sedvc.extmodels import is_table
+        from sedvc.units import C_SI
+        ev = [e for e in c.st.events if e[0] == 'fits.writeto']
+        out = {'written_once_to_the_named_file': len(ev) == 1 and ev[0][1] == 'flux.fits'}
+        if not out['written_once_to_the_named_file']:
+            return out
+        hdus = ev[0][2]
+        by_name = dict((c.attr(h, 'name'), h) for h in hdus[1:])
+        has_unc, has_ap = c.attr(a.self, '_unc') is not None, c.attr(a.self, '_apertures') is not None
+        want = ['MODEL_NAMES', 'SPECTRAL_INFO'] + (['APERTURES'] if has_ap else []) + ['VALUES'] + (['UNCERTAINTIES'] if has_unc else [])
+        out['extensions_in_the_documented_order'] = [c.attr(h, 'name') for h in hdus[1:]] == want
+        if not out['extensions_in_the_documented_order']:
+            return out
+
+        def cols(h):
+            d = c.attr(h, 'data')
+            return c.st.heap[d.addr].attrs['@cols'] if is_table(c.st, d) else {}
+        hdr0 = c.st.heap[c.attr(hdus[0], 'header').addr].items
+        dist = c.attr(a.self, '_distance')
+        dv = hdr0.get('distance')
+        dv = dv[0] if isinstance(dv, tuple) else dv
+        out['distance_in_cm'] = compare('==', dv * U['cm'].scale, dist.value * dist.unit.scale)
+        names = c.A(c.attr(a.self, '_names'))
+        SN = c.A(cols(by_name['MODEL_NAMES'])['MODEL_NAME'])
+        out['model_names'] = [compare('==', SN.n, names.n), c.forall(names.n, lambda m: SN[m] == names[m], 'names')]
+        wq = c.attr(a.self, '_wav')
+        W = c.A(wq)
+        sc = cols(by_name['SPECTRAL_INFO'])
+        sw, sn = sc['WAVELENGTH'], sc['FREQUENCY']
+        SW, SNU = c.A(sw), c.A(sn)
+        out['wavelengths_and_frequencies'] = [compare('==', SW.n, W.n), c.forall(W.n, lambda k: SW[k] * sw.unit.scale == W[k] * wq.unit.scale, 'wav'),
+                                              c.forall(W.n, lambda k: SNU[k] * sn.unit.scale * (W[k] * wq.unit.scale) == Sc(C_SI), 'nu*wav=c')]
+        if has_ap:
+            aq = c.attr(a.self, '_apertures')
+            sa = cols(by_name['APERTURES'])['APERTURE']
+            SA, AP = c.A(sa), c.A(aq)
+            out['apertures'] = [compare('==', SA.n, AP.n), c.forall(AP.n, lambda i: SA[i] * sa.unit.scale == AP[i] * aq.unit.scale, 'ap')]
+        for nm, attr in (('VALUES', '_val'),) + ((('UNCERTAINTIES', '_unc'),) if has_unc else ()):
+            q = c.attr(a.self, attr)
+            h = by_name[nm]
+            D, V = c.A(c.attr(h, 'data')), c.A(q)
+            hdr = c.st.heap[c.attr(h, 'header').addr].items
+            bu = hdr.get('BUNIT')
+            out['%s_cell_for_cell_with_unit' % nm.lower()] = [isinstance(bu, Opaque) and bu.tag == 'unitstr' and bu.info is q.unit,
+                                                              compare('==', D.shape[0], V.shape[0]), compare('==', D.shape[1], V.shape[1]), compare('==', D.shape[2], V.shape[2]),
+                                                              c.forall(list(V.shape), (lambda D, V: lambda m, i, k: D[m, i, k] == V[m, i, k])(D, V), 'cells')]
+        return out
